@@ -16,7 +16,56 @@ def git(*a):
     return subprocess.run(["git", "-C", core.REPO] + list(a), capture_output=True, text=True)
 
 
-def run(names, tier):
+def run_isolated(names, tier):
+    """Same as run(), but each change is applied to a scratch worktree of /repo's HEAD (outside /repo and /verif) and the
+    checks are pointed at it through VERIF_REPO, so that /repo itself is never touched."""
+    import shutil
+    import tempfile
+    names = names or sorted(d for d in os.listdir(SEEDED) if os.path.isdir(os.path.join(SEEDED, d)))
+    resp = os.path.join(SEEDED, "RESULTS.json")
+    results = core.read_json(resp) if os.path.exists(resp) else {}
+    rc_all = 0
+    for name in names:
+        d = os.path.join(SEEDED, name)
+        meta = core.read_json(os.path.join(d, "meta.json"))
+        checks = [meta["property"]] + list(meta.get("also", []))
+        wt = tempfile.mkdtemp(prefix="verif-seeded-", dir="/tmp")
+        os.rmdir(wt)
+        subprocess.run(["git", "-C", "/repo", "worktree", "add", "-q", "--detach", wt, "HEAD"], check=True)
+        try:
+            a = subprocess.run(["git", "-C", wt, "apply", os.path.join(d, "patch.diff")], capture_output=True, text=True)
+            if a.returncode != 0:
+                print("%s: patch does not apply: %s" % (name, a.stderr.strip()))
+                results[name] = {"applies": False}
+                continue
+            entry = {"applies": True, "property": meta["property"], "tier": tier, "isolated_worktree": True,
+                     "repo_head": subprocess.run(["git", "-C", "/repo", "rev-parse", "--short", "HEAD"], capture_output=True, text=True).stdout.strip(), "checks": {}}
+            for pid in checks:
+                t0 = time.time()
+                p = subprocess.run([os.path.join(core.ROOT, "bin", "vcheck"), "run", pid, "--tier", tier], capture_output=True, text=True, cwd=core.ROOT,
+                                   env=dict(os.environ, VERIF_REPO=wt, VERIF_EVIDENCE_DIR=os.path.join(wt, ".verif-evidence")))
+                viol = [l for l in p.stdout.splitlines() if l.startswith("VIOLATION")]
+                firsts = [l.strip() for l in p.stderr.splitlines() if l.startswith("  ")][:3]
+                entry["checks"][pid] = {"exit": p.returncode, "violation_lines": len(viol), "first": firsts, "wall_s": round(time.time() - t0, 1)}
+                print("%s: check %s exit=%d violations=%d %s" % (name, pid, p.returncode, len(viol), firsts[:1]), flush=True)
+                if p.returncode == 2:
+                    print(p.stderr[-1500:])
+            entry["caught_by"] = [pid for pid, r in entry["checks"].items() if r["exit"] == 1]
+            if not entry["caught_by"]:
+                rc_all = 1
+            results[name] = entry
+            with open(resp, "w") as f:
+                json.dump(results, f, indent=1, sort_keys=True)
+                f.write("\n")
+        finally:
+            subprocess.run(["git", "-C", "/repo", "worktree", "remove", "--force", wt])
+            shutil.rmtree(wt, ignore_errors=True)
+    return rc_all
+
+
+def run(names, tier, isolated=False):
+    if isolated:
+        return run_isolated(names, tier)
     if git("status", "--porcelain", "--untracked-files=no").stdout.strip():
         print("refusing: /repo has uncommitted changes", file=sys.stderr)
         return 2
